@@ -296,6 +296,33 @@ def appsend_trace(R, test_exe, runner, n):
     return res
 
 
+def internal_trace(R, test_exe, n):
+    """The real internal (management) face: packets in through SendPacket, out through InternalTransport.Receive."""
+    trace = os.path.join(R.work, "internal.trace")
+    env = vlib.goenv()
+    env.update(VERIF_SEED=str(R.seed), VERIF_N=str(n), VERIF_OUT=trace)
+    rc, out = vlib.sh([test_exe, "-test.run", "TestInternalTrace$", "-test.count=1", "-test.timeout=300s"], env=env, timeout=400)
+    lines = [l.strip() for l in open(trace, errors="replace")] if os.path.exists(trace) else []
+    if rc != 0:
+        R.oracle_failure("internal-face-harness-crash", "the harness for the internal face aborted", dict(output=out[-1500:], last=lines[-1:] ))
+        return
+    multi = 0
+    for l in lines:
+        m = re.match(r"IF (\d+) size=(\d+) token=(\d+) inface=(\d+) -> frames=(\d+) bytes=(\d+) res=(\w+) inface_seen=(\S*)", l)
+        if not m:
+            continue
+        size, frames, got, res = int(m.group(2)), int(m.group(5)), int(m.group(6)), m.group(7)
+        if frames > 1:
+            multi += 1
+        if res == "panic":
+            R.oracle_failure("internal-receive-panic", "InternalTransport.Receive panicked on a frame of the internal face's own link service "
+                             "(management goroutine dies): Interest of %d bytes sent in fragments" % size, dict(line=l, harness="facelp.test -test.run TestInternalTrace"))
+        elif res != "ok" or got != size or any(x != m.group(4) for x in m.group(8).split(",") if x):
+            R.oracle_failure("internal-receive-lost", "the internal face lost or altered a packet (%s)" % l[:200], dict(line=l))
+    R.coverage.setdefault("distribution", {})["internal_face"] = dict(packets=len(lines), fragmented=multi)
+    R.add_cases(len(lines), multi, lines[-1:])
+
+
 def load_cases(trace):
     cases, cur, cid = {}, [], None
     for line in open(trace, errors="replace"):
@@ -341,6 +368,7 @@ def part(R):
     if lp:
         R.coverage.setdefault("distribution", {})["frame_sequences"] = dict(cases=lp["kinds"], frames_fed=lp["ops"])
         R.add_cases(lp["cases"], len(lp["nontrivial"]), lp["samples"])
+    internal_trace(R, test_exe, 40 if R.quick else 400)
     rule = ("stream: one evaluation = one adversarial byte stream (huge/overflowing lengths, oversize blocks, exact buffer fill, non-minimal forms, random "
             "and TL-biased bytes, truncation) under one read schedule; frames: one evaluation = one sequence of 4..27 frames fed to a real NDNLPLinkService "
             "(arbitrary FragIndex/FragCount/Sequence incl. 2^32, 2^63, 2^64-1, index >= count, count changes for a live sequence, duplicates, sequence wrap, "
